@@ -298,6 +298,13 @@ func writeProject(p pProject, dir string) (map[string]string, error) {
 			sb.Reset()
 			sb.WriteString(ind + "type (\n" + ind + "\t" + c.Name + "Neighbour struct {\n" + ind + "\t\tX int\n" + ind + "\t}\n" +
 				ind + "\t" + c.Name + " struct {\n" + ind + "\t\truntime.GleeceController\n" + ind + "\t}\n" + ind + ")\n")
+		} else if c.Grouped && !c.NoEmbed && len(c.Name)%2 == 0 && len(c.Methods)%2 == 1 {
+			// the comment sits above `type (` and the only member is bare: the group's doc comment is the controller's
+			var gb strings.Builder
+			gb.WriteString(sb.String())
+			gb.WriteString(ind + "type (\n" + ind + "\t" + c.Name + " struct {\n" + ind + "\t\truntime.GleeceController\n" + ind + "\t}\n" + ind + ")\n")
+			sb.Reset()
+			sb.WriteString(gb.String())
 		} else if c.Grouped && !c.NoEmbed {
 			// a documented group whose member carries its own doc comment (the member's comment is the one that counts)
 			var gb strings.Builder
@@ -579,6 +586,17 @@ func entitySpans(p pProject, texts map[string]string) []pSpan {
 			// spec itself has none)
 			if ga, _, gok := find(c.Pkg+"/"+c.File, "// Declarations of the "+c.Name+" group"); gok && ga < a {
 				a = ga
+			}
+			// a bare member right under `type (`: the comment above the group is the member's
+			if src, ok := texts[c.Pkg+"/"+c.File]; ok {
+				lines := strings.Split(src, "\n")
+				if a > 0 && a < len(lines) && strings.TrimSpace(lines[a-1]) == "type (" {
+					k := a - 1
+					for k > 0 && strings.HasPrefix(strings.TrimLeft(lines[k-1], " \t"), "//") {
+						k--
+					}
+					a = k
+				}
 			}
 			out = append(out, pSpan{c.Name, "", c.Pkg + "/" + c.File, a, b})
 		}
